@@ -138,6 +138,7 @@ func newExec(p *Program) *Exec {
 // verifyFunction runs the symbolic executor over fn with contract ct.
 func (p *Program) verifyFunction(fn *ssa.Function, ct *Contract) *FuncReport {
 	x := newExec(p)
+	x.panicPaths = true
 	key := funcKey(fn)
 	rep := &FuncReport{Key: key, Contract: ct, exec: x}
 	func() {
@@ -195,6 +196,15 @@ func (x *Exec) verify(fn *ssa.Function, ct *Contract, rep *FuncReport) {
 			a = a[:i]
 		}
 		fc.allowed[a] = true
+		if strings.HasPrefix(a, "*") {
+			for _, pv := range fn.Params {
+				if pv.Name() == a[1:] {
+					if pt, ok := pv.Type().Underlying().(*types.Pointer); ok {
+						fc.allowed["deref "+typeKey(pt.Elem())] = true
+					}
+				}
+			}
+		}
 	}
 	fr := x.newFrame(fn, nil)
 	fr.ctx = fc
@@ -224,6 +234,25 @@ func (x *Exec) verify(fn *ssa.Function, ct *Contract, rep *FuncReport) {
 	ev := x.newEval(fr, st, nil)
 	for _, cl := range ct.Requires {
 		st.assume(ev.boolExpr(cl.Expr))
+	}
+	// ghost variables of the contract: cells of the top frame, resolved by name like locals
+	for _, gv := range ct.GhostVars {
+		var t types.Type = types.Typ[types.Int]
+		if gv.Sort == "bool" {
+			t = types.Typ[types.Bool]
+		}
+		fake := &ssa.Alloc{Comment: gv.Name}
+		l := x.newCell(st, t, gv.Name, fake)
+		fr.cellOf[fake] = l.CellID
+		if fc.ghost == nil {
+			fc.ghost = map[string]int{}
+		}
+		fc.ghost[gv.Name] = l.CellID
+		iv := x.newEval(fr, st, nil)
+		st.quiet++
+		v := iv.eval(gv.Init)
+		st.quiet--
+		x.store(st, l, v)
 	}
 	fc.entry = st.clone()
 	x.reqNode = st.log
@@ -256,6 +285,12 @@ func (x *Exec) checkEnsures(fr *Frame, st *State, ct *Contract, fn *ssa.Function
 	for _, p := range fn.Params {
 		ev.bind[p.Name()] = fr.env[p]
 	}
+	if rv, ok := st.callResult(fr.id, "builtin.recover", 1); ok {
+		ev.bind["PANICKING"] = &Prim{T: Not(Eq(rv.(*IfaceV).Tag, TZero))}
+	} else {
+		ev.bind["PANICKING"] = &Prim{T: TFalse}
+	}
+	ev.bind["RECOVERED"] = &Prim{T: BoolLit(st.recovered)}
 	for _, cl := range ct.Ensures {
 		t := ev.boolExpr(cl.Expr)
 		x.oblige(st, "ensures", cl.Label, t, cl.Tags, token.NoPos)
@@ -316,6 +351,17 @@ func (x *Exec) solveObligation(n *LogNode, budget int) SolveResult {
 		if r.Status == "unsat" {
 			r.Ms = spent
 			r.Solver += "(sliced)"
+			return r
+		}
+	}
+	// 1b. sliced with the relevant families closed under co-occurrence
+	q = x.buildQuerySliced(n, true, true, true)
+	for _, s := range []int{1, 0} {
+		r := runSolver(solvers[s], q, 3, false)
+		spent += r.Ms
+		if r.Status == "unsat" {
+			r.Ms = spent
+			r.Solver += "(sliced-closure)"
 			return r
 		}
 	}
